@@ -93,8 +93,9 @@ spec fn abs_step(a: Abs, ev: Event<'_>, per_document: bool) -> Abs {
         },
         Event::Alias(_) => Abs { aliases: a1.aliases + 1, stack: node_done(a1.stack), ..a1 },
         Event::DocumentStart(_) => if per_document {
-            // everything that is counted restarts; the number of documents read so far is kept
-            Abs { documents: a.documents, ..abs_fresh() }
+            // everything that is counted restarts at the boundary -- whatever the state was --
+            // and the document start is the first event of the new document
+            Abs { documents: a.documents, events: 1, ..abs_fresh() }
         } else {
             Abs { documents: a1.documents + 1, ..a1 }
         },
@@ -102,24 +103,14 @@ spec fn abs_step(a: Abs, ev: Event<'_>, per_document: bool) -> Abs {
     }
 }
 
-/// Is the history still acceptable after this event?  At a document start under per-document
-/// enforcement the event is still counted (as an event) against the span that ends with it, and
-/// only then does everything restart; no other limit is looked at for that event.
+/// Is the history still acceptable after this event?
 spec fn accepted(a: Abs, ev: Event<'_>, b: Budget, per_document: bool) -> bool {
-    if per_document && ev is DocumentStart {
-        a.events + 1 <= b.max_events
-    } else {
-        within(abs_step(a, ev, per_document), b, per_document) && end_balanced(a, ev)
-    }
+    within(abs_step(a, ev, per_document), b, per_document) && end_balanced(a, ev)
 }
 
 /// The breach value names a quantity that really exceeds its limit after this event, with its value.
 spec fn rejected_for(br: BudgetBreach, a: Abs, ev: Event<'_>, b: Budget, per_document: bool) -> bool {
-    if per_document && ev is DocumentStart {
-        br == (BudgetBreach::Events { events: (a.events + 1) as usize }) && a.events + 1 > b.max_events
-    } else {
-        breach_justified(br, abs_step(a, ev, per_document), b, end_balanced(a, ev), per_document)
-    }
+    breach_justified(br, abs_step(a, ev, per_document), b, end_balanced(a, ev), per_document)
 }
 
 spec fn within(a: Abs, b: Budget, per_document: bool) -> bool {
